@@ -560,5 +560,178 @@ theorem union_eq (A : NFA σ₁ α) (B : NFA σ₂ α) (hA : A.WF) (hB : B.WF) :
   rw [hfb]
   rfl
 
+/-- Reading a renamed row against the operand's `targets`. -/
+theorem mem_renamed_iff (A : NFA σ α) (φ : σ → Nat) (q : σ) (a : Option α) (p : Nat) :
+    p ∈ (match alookup q A.trans with
+         | some es =>
+           (match alookup a es with
+            | some ts => dedup (ts.map φ)
+            | none => ([] : List Nat))
+         | none => []) ↔ ∃ t ∈ A.targets q a, p = φ t := by
+  unfold targets row row?
+  cases h1 : alookup q A.trans with
+  | none => simp
+  | some es =>
+    simp only [Option.getD_some]
+    cases h2 : alookup a es with
+    | none => simp
+    | some ts =>
+      simp only [Option.getD_some, mem_dedup, List.mem_map]
+      constructor
+      · rintro ⟨t, ht, rfl⟩; exact ⟨t, ht, rfl⟩
+      · rintro ⟨t, ht, rfl⟩; exact ⟨t, ht, rfl⟩
+
+section union2
+variable (A : NFA σ₁ α) (B : NFA σ₂ α)
+
+theorem unionT1_tgt_ne_zero {k : Nat} (hk : k ≠ 0) (a : Option α) : Tbl.tgt (unionT1 A B) k a = [] := by
+  unfold unionT1
+  rw [Tbl.tgt_ainsert]
+  have : ¬ 0 = k := fun e => hk e.symm
+  simp only [this, if_false]
+  exact tgt_emptyRows _ _ _
+
+theorem uφa_ne_zero (q : σ₁) : uφa A q ≠ 0 := by unfold uφa; omega
+theorem uφb_ne_zero (q : σ₂) : uφb A B q ≠ 0 := by unfold uφb; omega
+
+/-- Reading of the union automaton at the new initial state `0`. -/
+theorem unionRaw_targets_zero (a : Option α) :
+    (unionRaw A B).targets 0 a = if a = none then dedup [uφa A A.init, uφb A B B.init] else [] := by
+  rw [targets_eq_tgt]
+  unfold Tbl.tgt
+  simp only [unionRaw]
+  rw [alookup_loadPure_other B.states (uφb A B) B.trans _ 0 (fun q _ => uφb_ne_zero A B q),
+    alookup_loadPure_other A.states (uφa A) A.trans _ 0 (fun q _ => uφa_ne_zero A q)]
+  unfold unionT1
+  rw [alookup_ainsert]
+  simp only [if_true, Option.getD_some, alookup_cons, alookup_nil]
+  by_cases h : a = none
+  · subst h; simp
+  · have : ¬ none = a := fun e => h e.symm
+    simp [h, this]
+
+/-- Reading of the union automaton at the image of a state of `A`: `A`'s moves, renamed. -/
+theorem unionRaw_targets_a (hA : A.Valid) {q : σ₁} (hq : q ∈ A.states) (a : Option α) (p : Nat) :
+    p ∈ (unionRaw A B).targets (uφa A q) a ↔ ∃ t ∈ A.targets q a, p = uφa A t := by
+  rw [targets_eq_tgt]
+  have h1 : Tbl.tgt (unionRaw A B).trans (uφa A q) a =
+      Tbl.tgt (loadPure A.states (uφa A) A.trans (unionT1 A B)) (uφa A q) a := by
+    unfold Tbl.tgt
+    simp only [unionRaw]
+    rw [alookup_loadPure_other B.states (uφb A B) B.trans _ (uφa A q)
+      (fun q' _ => (uφa_ne_uφb A B hq q').symm)]
+  rw [h1, tgt_loadPure_state A.states (uφa A) (uφa_inj A) A.trans _ hA.dict q hq a,
+    unionT1_tgt_ne_zero A B (uφa_ne_zero A q), ← mem_renamed_iff A (uφa A) q a p]
+  cases alookup q A.trans with
+  | none => rfl
+  | some es => cases alookup a es <;> rfl
+
+/-- Reading of the union automaton at the image of a state of `B`: `B`'s moves, renamed. -/
+theorem unionRaw_targets_b (hB : B.Valid) {q : σ₂} (hq : q ∈ B.states) (a : Option α) (p : Nat) :
+    p ∈ (unionRaw A B).targets (uφb A B q) a ↔ ∃ t ∈ B.targets q a, p = uφb A B t := by
+  rw [targets_eq_tgt]
+  simp only [unionRaw]
+  rw [tgt_loadPure_state B.states (uφb A B) (uφb_inj A B) B.trans _ hB.dict q hq a]
+  have h0 : Tbl.tgt (loadPure A.states (uφa A) A.trans (unionT1 A B)) (uφb A B q) a = [] := by
+    have : Tbl.tgt (loadPure A.states (uφa A) A.trans (unionT1 A B)) (uφb A B q) a =
+        Tbl.tgt (unionT1 A B) (uφb A B q) a := by
+      unfold Tbl.tgt
+      rw [alookup_loadPure_other A.states (uφa A) A.trans _ (uφb A B q)
+        (fun q' hq' => uφa_ne_uφb A B hq' q)]
+    rw [this, unionT1_tgt_ne_zero A B (uφb_ne_zero A B q)]
+  rw [h0, ← mem_renamed_iff B (uφb A B) q a p]
+  cases alookup q B.trans with
+  | none => rfl
+  | some es => cases alookup a es <;> rfl
+
+theorem mem_unionRaw_finals (k : Nat) :
+    k ∈ (unionRaw A B).finals ↔ (∃ q ∈ A.finals, k = uφa A q) ∨ (∃ q ∈ B.finals, k = uφb A B q) := by
+  simp only [unionRaw, mem_dedup, List.mem_append, List.mem_map]
+  constructor
+  · rintro (⟨q, hq, rfl⟩ | ⟨q, hq, rfl⟩)
+    · exact Or.inl ⟨q, hq, rfl⟩
+    · exact Or.inr ⟨q, hq, rfl⟩
+  · rintro (⟨q, hq, rfl⟩ | ⟨q, hq, rfl⟩)
+    · exact Or.inl ⟨q, hq, rfl⟩
+    · exact Or.inr ⟨q, hq, rfl⟩
+
+theorem unionRaw_final_a (hA : A.WF) {q : σ₁} (hq : q ∈ A.states) :
+    uφa A q ∈ (unionRaw A B).finals ↔ q ∈ A.finals := by
+  rw [mem_unionRaw_finals]
+  constructor
+  · rintro (⟨q', hq', e⟩ | ⟨q', _, e⟩)
+    · rw [uφa_inj A q hq q' (hA.finalsOk q' hq') e]; exact hq'
+    · exact absurd e (uφa_ne_uφb A B hq q')
+  · intro h; exact Or.inl ⟨q, h, rfl⟩
+
+theorem unionRaw_final_b (hA : A.WF) (hB : B.WF) {q : σ₂} (hq : q ∈ B.states) :
+    uφb A B q ∈ (unionRaw A B).finals ↔ q ∈ B.finals := by
+  rw [mem_unionRaw_finals]
+  constructor
+  · rintro (⟨q', hq', e⟩ | ⟨q', hq', e⟩)
+    · exact absurd e.symm (uφa_ne_uφb A B (hA.finalsOk q' hq') q)
+    · rw [uφb_inj A B q hq q' (hB.finalsOk q' hq') e]; exact hq'
+  · intro h; exact Or.inr ⟨q, h, rfl⟩
+
+end union2
+
+/-! ### validity of the union automaton -/
+
+section union3
+variable (A : NFA σ₁ α) (B : NFA σ₂ α)
+
+theorem symOk_sunion_left {a : Option α} (h : SymOk A.syms a) : SymOk (sunion A.syms B.syms) a :=
+  fun x hx => mem_sunion.mpr (Or.inl (h x hx))
+
+theorem symOk_sunion_right {a : Option α} (h : SymOk B.syms a) : SymOk (sunion A.syms B.syms) a :=
+  fun x hx => mem_sunion.mpr (Or.inr (h x hx))
+
+theorem unionT1_dict : Tbl.Dict (unionT1 A B : Tbl Nat α) := by
+  unfold unionT1
+  exact Tbl.dict_ainsert (dict_emptyRows _ (nodup_dedup _)) 0 (by simp [akeys])
+
+theorem unionRaw_valid (hA : A.Valid) (hB : B.Valid) : (unionRaw A B).Valid := by
+  have okA := ((wf_iff_ok A).mp hA.wf).1
+  have okB := ((wf_iff_ok B).mp hB.wf).1
+  have hkeys1 : ∀ q ∈ A.states, uφa A q ∈ akeys (unionT1 A B) :=
+    fun q hq => (akeys_unionT1 A B _).mpr (uφa_mem_states A B hq)
+  refine ⟨?_, ?_⟩
+  · rw [wf_iff_ok]
+    refine ⟨?_, zero_mem_unionStates A B, Or.inl ?_, ?_⟩
+    · simp only [unionRaw]
+      refine ok_loadPure B.states (uφb A B) B.trans _ (ok_loadPure A.states (uφa A) A.trans _ ?_ ?_) ?_
+      · unfold unionT1
+        refine Tbl.ok_ainsert (ok_emptyRows _) 0 ?_
+        intro e he
+        simp at he
+        subst he
+        refine ⟨symOk_none _, ?_⟩
+        intro p hp
+        simp only [mem_dedup, List.mem_cons, List.mem_nil_iff, or_false] at hp
+        rcases hp with rfl | rfl
+        · exact uφa_mem_states A B hA.wf.initOk
+        · exact uφb_mem_states A B hB.wf.initOk
+      · intro kv hkv _ e he
+        exact ⟨symOk_sunion_left A B (okA kv hkv e he).1,
+          fun b hb => uφa_mem_states A B ((okA kv hkv e he).2 b hb)⟩
+      · intro kv hkv _ e he
+        exact ⟨symOk_sunion_right A B (okB kv hkv e he).1,
+          fun b hb => uφb_mem_states A B ((okB kv hkv e he).2 b hb)⟩
+    · simp only [unionRaw]
+      rw [akeys_loadPure B.states (uφb A B) B.trans _ (by
+        intro q hq
+        rw [akeys_loadPure A.states (uφa A) A.trans (unionT1 A B) hkeys1]
+        exact (akeys_unionT1 A B _).mpr (uφb_mem_states A B hq)),
+        akeys_loadPure A.states (uφa A) A.trans (unionT1 A B) hkeys1]
+      exact (akeys_unionT1 A B 0).mpr (zero_mem_unionStates A B)
+    · intro k hk
+      rcases (mem_unionRaw_finals A B k).mp hk with ⟨q, hq, rfl⟩ | ⟨q, hq, rfl⟩
+      · exact uφa_mem_states A B (hA.wf.finalsOk q hq)
+      · exact uφb_mem_states A B (hB.wf.finalsOk q hq)
+  · simp only [unionRaw]
+    exact dict_loadPure _ _ _ _ (dict_loadPure _ _ _ _ (unionT1_dict A B))
+
+end union3
+
 end NFA
 end AV
